@@ -219,6 +219,7 @@ def run(ctx):
                    "the transaction is opened with heads other than self.isolation (from the field: %s, adaptors that can drop it: %s): a transaction inside an isolated session can run unscoped" % (from_iso, drops))
     ctx.floor("transaction_args calls in AutoCommit", n_ta, 2)
     check_isolated_chain(ctx, f)
+    check_empty_change_start(ctx, f)
     check_scoped_marks(ctx, f)
     check_scoped_deletes(ctx, f)
     # ---------------- S3 / S4
@@ -298,3 +299,27 @@ def check_scoped_deletes(ctx, f):
             ctx.ob("S6", k, ok, t["sp"], "winner re-derived under a scope, range recorded for undo" if ok else
                    "ops are marked as succeeded under a scope without re-deriving the element's winner (reset_top): a value outside the isolated heads stays hidden in the live document while a reload shows it")
     ctx.floor("add_succ_with_undo sites in TransactionInner", n, 3)
+
+
+def check_empty_change_start(ctx, f):
+    """S2e: a change without ops starts right after its dependencies (the loader derives op counts from max_op distances)"""
+    ctx.rule("S2e", "TransactionInner::commit_impl: on the `pending is empty` edge self.start_op is re-derived from the dependencies' greatest op (ChangeGraph::max_op_of(self.deps)) before the change is exported")
+    CI = "automerge::transaction::inner::TransactionInner::commit_impl"
+    b = ctx.body(CI)
+    ctx.analysed_fns.add(CI)
+    exports = [bi for bi, t in b.calls() if (callee(t) or "").endswith("TransactionInner::export")]
+    if not exports:
+        raise facts.AnchorMissing("export call in commit_impl")
+    empty = cfg.cond_edges(b, atom_call=lambda t: (norm_fn(t.get("fn")) or "").endswith("::is_empty") and ".pending" in ((b.operand_origin(t["args"][0]) or (0, ()))[1]))
+    stores = [(bi, st) for bi, blk in enumerate(b.blocks) if not blk.get("cleanup") for st in blk["st"] if st["d"]["p"] and st["d"]["p"][-1] == ".start_op"]
+    ok = False
+    why = "no store to self.start_op"
+    for bi, st in stores:
+        pv = b.provenance(st["rv"]["o"][0], through_calls=True) if st["rv"].get("o") else None
+        from_deps = pv is not None and any((norm_fn(c) or "").endswith("ChangeGraph::max_op_of") for c in pv.callees()) and any(".deps" in b.origin(l, pr)[1] for l, pr in pv.places)
+        guarded = any(b.edges_dominate([e], bi) for e in empty)
+        before = any(b.can_reach(bi, eb) for eb in exports)
+        why = "from the dependencies: %s, on the empty edge: %s, before export: %s" % (from_deps, guarded, before)
+        ok = ok or (from_deps and guarded and before)
+    ctx.ob("S2e", "commit_impl|an empty change starts after its dependencies", ok, b.rec["sp"], "start_op := max_op_of(deps) + 1 when there are no ops" if ok else
+           "an empty change keeps the document-wide start_op (%s): made under isolation its max_op lies beyond its dependencies', the loader expects ops that do not exist and the document's own save() fails to load (MissingOps)" % why)
